@@ -1,11 +1,11 @@
 package props
 
 import (
-	"sync"
 	"bytes"
 	"encoding/json"
 	"fmt"
 	"strings"
+	"sync"
 
 	vuego "github.com/titpetric/vuego"
 
@@ -663,7 +663,6 @@ func c13Describe(pos string, s *c13Seen) string {
 	}
 	return fmt.Sprintf("condition treated as %v", s.truth)
 }
-
 
 var (
 	c13Base     vuego.Template
